@@ -778,6 +778,14 @@ impl Driver {
                 items.push(Item::Mi(key.clone(), false));
                 items.push(Item::Sha(key.clone(), false));
             }
+            "mi_bad_and_sha" => {
+                items.push(Item::Mi(key.clone(), true));
+                items.push(Item::Sha(key.clone(), false));
+            }
+            "sha_bad_and_mi" => {
+                items.push(Item::Mi(key.clone(), false));
+                items.push(Item::Sha(key.clone(), true));
+            }
             "mi_bad" => items.push(Item::Mi(key.clone(), true)),
             "sha_bad" => items.push(Item::Sha(key.clone(), true)),
             "mi_otherpw" => items.push(Item::Mi(other.clone(), false)),
